@@ -230,6 +230,20 @@ func (r *Run) writeReplay(key, what string, replay any) string {
 	return path
 }
 
+// ViolationEvents returns how often Violation was called for findings that are not listed as known
+// (duplicates of one finding key included)
+func (r *Run) ViolationEvents() int {
+	r.mu.Lock()
+	defer r.mu.Unlock()
+	n := 0
+	for k, c := range r.violKeys {
+		if _, known := r.known[k]; !known {
+			n += c
+		}
+	}
+	return n
+}
+
 // NumViolations returns the number of distinct unknown violations so far
 func (r *Run) NumViolations() int {
 	r.mu.Lock()
